@@ -212,6 +212,31 @@ def job_rotate_by(ctx, k):
         QA.rotate_by(q.copy(), inplace=True)
         out = np.asarray(QA.array)
         ctx.close(out, np.array([rq.qmul(q, r) for r in Gl]), 1e-12, 'rotate_by(inplace=True): array rows = q * row', f'q=G48[{i}]')
+    # every cell of (array built with versors=True | False from non-unit rows) x (inplace False | True) x (rotating quaternion unit | scaled):
+    # the rotated rows, returned or stored, are unit quaternions q * row / |row|
+    scl = np.array([2.0, 0.5, 5.7, 1.0, 0.25, 3.0, 19.0, 1e-3])
+    rows = np.array([Gl[j] * scl[j % len(scl)] for j in range(12)])
+    refrows = np.array([rq.qunit(r) for r in rows])
+    for i, q in enumerate(G[::5]):
+        for versors in (True, False):
+            for inplace in (False, True):
+                for scale in (1.0, 5.0):
+                    key = f'q=G48[{5 * i}]*{scale:g} versors={versors} inplace={inplace} k{k}'
+                    ctx.evals += 1
+                    try:
+                        QA = QuaternionArray(rows.copy(), versors=versors)
+                        ret = QA.rotate_by((q * scale).copy(), inplace=inplace)
+                        out = np.asarray(QA.array if inplace else ret, float)
+                        view = np.asarray(QA, float)
+                    except Exception as ex:
+                        ctx.fail('rotate_by raises', key, repr(ex)[:160], 'N unit rows'); continue
+                    good = out.shape == rows.shape and bool(np.all(np.isfinite(out))) and bool(np.all(np.abs(np.linalg.norm(out, axis=1) - 1) <= 1e-12))
+                    ctx.expect(good, 'rotate_by on every (versors, inplace) cell: rows returned / stored are real unit quaternions', key, out[:2], 'unit rows', 1e-12)
+                    if good:
+                        ctx.close(out, np.array([rq.qmul(q, r) for r in refrows]), 1e-12, 'rotate_by on every (versors, inplace) cell: rows = q * row / |row|', key)
+                    if inplace:
+                        ctx.expect(np.array_equal(view, out), 'rotate_by(inplace=True): the object itself and its .array hold the same rows', key, view[:2], out[:2])
+                    ctx.seen(('rot-cell', i, versors, inplace, scale))
     ctx.sample({'rotate_by': G[10].tolist()})
 
 
@@ -429,7 +454,10 @@ def job_reject(ctx, k):
         ctx.fail(site + ' (rejects with ValueError/TypeError)', key, np.asarray(r) if r is not None else None, 'ValueError/TypeError')
 
     bad_vecs = [('zero4', [0.0, 0, 0, 0]), ('zero3', [0.0, 0, 0]), ('len2', [1.0, 2]), ('len5', [1.0, 2, 3, 4, 5]), ('2x4', [[1.0, 0, 0, 0], [0, 1.0, 0, 0]]),
-                ('str', 'abcd'), ('strs', ['a', 'b', 'c', 'd']), ('scalar', 3.0), ('empty', [])]
+                ('str', 'abcd'), ('strs', ['a', 'b', 'c', 'd']), ('scalar', 3.0), ('empty', []),
+                # wrong shapes that happen to hold 3 or 4 numbers
+                ('2x2', [[1.0, 2.0], [3.0, 4.0]]), ('1x4', [[1.0, 0, 0, 0]]), ('4x1', [[1.0], [0.0], [0.0], [0.0]]), ('1x3', [[1.0, 2.0, 3.0]]), ('3x1', [[1.0], [2.0], [3.0]]),
+                ('2x2x1', [[[1.0], [2.0]], [[3.0], [4.0]]]), ('1x1x4', [[[1.0, 0, 0, 0]]]), ('1x1x3', [[[1.0, 2.0, 3.0]]])]
     for pos in range(4):
         v = [0.5, -0.5, 0.5, 0.5]; v[pos] = nan
         bad_vecs.append((f'nan@{pos}', v))
